@@ -23,7 +23,8 @@
 (* 3K + off, so that instants 1 ns before / at / 1 ns after an edge are        *)
 (* adjacent ticks; all delays are multiples of 3.                              *)
 (*                                                                             *)
-(* Deviations (Dev = {} is the intended design, Dev = AsCode is the code):     *)
+(* Deviations (sch.dev; {} is the intended design, all nine = the code as it   *)
+(* is; the trace specs take sch.dev from the constant Dev):                    *)
 (*  continuation_ignores_crash       ProcessContinuation.invoke has no crash   *)
 (*                                   test: a generator in flight keeps running *)
 (*  bool_flag_not_refcount           _crashed is a boolean: the end of any     *)
@@ -73,7 +74,7 @@ NH == Len(sch.holds)
 Win(w) == sch.wins[w]
 IsCrashK(k) == k \in {"crash", "pause"}
 
-Range(s) == { s[i] : i \in 1..Len(s) }
+SeqRange(s) == { s[i] : i \in 1..Len(s) }
 Max0(x) == IF x > 0 THEN x ELSE 0
 Has(d) == d \in sch.dev
 
@@ -123,8 +124,8 @@ Push(mm, t, k, a, b) == [mm EXCEPT !.heap = Ins(@, <<t, mm.ctr + 1, k, a, b>>), 
 PushId(mm, id, t, k, a, b) == [mm EXCEPT !.heap = Ins(@, <<t, id, k, a, b>>)]
 
 \* ---- fault activation / deactivation closures --------------------------------
-SymPairs(w) == LET g == sch.groups[Win(w).tg[1]] IN { {x, y} : x \in Range(g.a), y \in Range(g.b) }
-DirPairs(w) == LET g == sch.groups[Win(w).tg[1]] IN Range(g.a) \X Range(g.b)
+SymPairs(w) == LET g == sch.groups[Win(w).tg[1]] IN { {x, y} : x \in SeqRange(g.a), y \in SeqRange(g.b) }
+DirPairs(w) == LET g == sch.groups[Win(w).tg[1]] IN SeqRange(g.a) \X SeqRange(g.b)
 Link(w) == <<Win(w).tg[1], Win(w).tg[2]>>
 OpenLike(mm, w) == { v \in mm.open \ {w} : Win(v).k = Win(w).k /\ Win(v).tg = Win(w).tg }
 MaxOf(S) == CHOOSE x \in S : \A y \in S : x >= y
@@ -279,8 +280,8 @@ CrashWins(e) == { w \in 1..NW : Live(w) /\ IsCrashK(Win(w).k) /\ Win(w).tg[1] = 
 PartCovers(w, x, y) ==
     /\ Win(w).k = "part"
     /\ LET g == sch.groups[Win(w).tg[1]] IN
-         \/ x \in Range(g.a) /\ y \in Range(g.b)
-         \/ Win(w).x = 0 /\ x \in Range(g.b) /\ y \in Range(g.a)
+         \/ x \in SeqRange(g.a) /\ y \in SeqRange(g.b)
+         \/ Win(w).x = 0 /\ x \in SeqRange(g.b) /\ y \in SeqRange(g.a)
 PartWins(x, y) == { w \in 1..NW : Live(w) /\ PartCovers(w, x, y) }
 LinkWins(k, x, y) == { w \in 1..NW : Live(w) /\ Win(w).k = k /\ Win(w).tg = <<x, y>> }
 CapWs == { w \in 1..NW : Live(w) /\ Win(w).k = "cap" }
